@@ -228,3 +228,81 @@ func Spawns(f func()) { go f() }
 // ---- compaction ------------------------------------------------------------------------------
 
 func Compacts(xs []string) []string { return slices.Compact(xs) }
+
+// ---- new functions are looked through ----------------------------------------------------
+// (functions whose name starts with inl play the part of functions the reviewed tree did
+// not have: the checker must analyse them as part of their callers)
+
+func inlValidateThenEmit(x int) ([]byte, error) {
+	if err := validate(x); err != nil {
+		return nil, err
+	}
+	return emit(x), nil
+}
+
+// the validation moved into a new helper: still validated
+func MustViaNewGood(x int) ([]byte, error) {
+	out, err := inlValidateThenEmit(x)
+	if err != nil {
+		return nil, err
+	}
+	return out, nil
+}
+
+func inlEmitUnchecked(x int) ([]byte, error) { return emit(x), nil }
+
+// the new helper does not validate: not validated
+func MustViaNewBad(x int) ([]byte, error) {
+	out, err := inlEmitUnchecked(x)
+	if err != nil {
+		return nil, err
+	}
+	return out, nil
+}
+
+func inlCollect(items []item) []string {
+	var out []string
+	for _, it := range items {
+		if it.Hidden {
+			continue
+		}
+		out = append(out, it.Name)
+	}
+	return out
+}
+
+// the loop moved into a new helper
+func EachViaNewGood(items []item) []string { return inlCollect(items) }
+
+func inlCollectLossy(items []item) []string {
+	var out []string
+	for _, it := range items {
+		if it.Hidden || strings.HasPrefix(it.Name, "_") {
+			continue // the second reason is not an allowed one
+		}
+		out = append(out, it.Name)
+	}
+	return out
+}
+
+func EachViaNewBad(items []item) []string { return inlCollectLossy(items) }
+
+type pair struct {
+	left, right string
+}
+
+func inlMakePair(a, b item) pair { return pair{left: a.Name, right: b.Name} }
+
+// field-sensitive look-through: only a.Name reaches the result
+func SliceViaNew(a, b item) string { return inlMakePair(a, b).left }
+
+// a condition written as !(x || y) must be read as !x && !y
+func EachNegatedGood(items []item) []string {
+	var out []string
+	for _, it := range items {
+		if !(it.Hidden) {
+			out = append(out, it.Name)
+		}
+	}
+	return out
+}
